@@ -89,6 +89,10 @@ type OPConfig struct {
 	Caps          Caps
 	Options       []op.Option
 	Endpoints     *op.Endpoints // router B: endpoints to register (nil: a copy of the defaults)
+	// PublicCtors: build the provider with the constructors applications call (NewOpenIDProvider, NewDynamicOpenIDProvider,
+	// NewForwardedOpenIDProvider) and take the login callback address from the library's helper (op.AuthCallbackURL,
+	// LegacyServer.AuthCallbackURL) instead of NewProvider and the endpoint value
+	PublicCtors bool
 }
 
 type OPNode struct {
@@ -119,22 +123,40 @@ func BuildOP(store *Store, cfg OPConfig) (*OPNode, error) {
 	if strings.HasPrefix(cfg.Issuer, "http://") || cfg.AllowInsecure {
 		opts = append(opts, op.WithAllowInsecure())
 	}
-	provider, err := op.NewProvider(cfg.Config, storage, issuerFn, opts...)
+	var provider *op.Provider
+	var err error
+	switch {
+	case !cfg.PublicCtors || cfg.Strategy != nil:
+		provider, err = op.NewProvider(cfg.Config, storage, issuerFn, opts...)
+	case cfg.IssuerMode == "host":
+		provider, err = op.NewDynamicOpenIDProvider(cfg.IssuerPath, cfg.Config, storage, opts...)
+	case cfg.IssuerMode == "forwarded":
+		provider, err = op.NewForwardedOpenIDProvider(cfg.IssuerPath, cfg.Config, storage, opts...)
+	default:
+		provider, err = op.NewOpenIDProvider(cfg.Issuer, cfg.Config, storage, opts...)
+	}
 	if err != nil {
 		return nil, err
 	}
 	var h http.Handler = provider
+	callback := func(ctx context.Context, id string) string {
+		return provider.AuthorizationEndpoint().Absolute(op.IssuerFromContext(ctx)) + "/callback?id=" + id
+	}
+	if cfg.PublicCtors {
+		callback = op.AuthCallbackURL(provider)
+	}
 	if cfg.Router == "B" {
 		eps := *op.DefaultEndpoints
 		if cfg.Endpoints != nil {
 			eps = *cfg.Endpoints
 		}
-		h = op.RegisterLegacyServer(op.NewLegacyServer(provider, eps), op.AuthorizeCallbackHandler(provider), op.WithFallbackLogger(Discard))
+		ls := op.NewLegacyServer(provider, eps)
+		if cfg.PublicCtors {
+			callback = ls.AuthCallbackURL()
+		}
+		h = op.RegisterLegacyServer(ls, op.AuthorizeCallbackHandler(provider), op.WithFallbackLogger(Discard))
 	}
 	node := &OPNode{Provider: provider, Store: store, Storage: storage, Config: cfg, LoginPath: "/login"}
-	callback := func(ctx context.Context, id string) string {
-		return provider.AuthorizationEndpoint().Absolute(op.IssuerFromContext(ctx)) + "/callback?id=" + id
-	}
 	node.Handler = http.HandlerFunc(func(w http.ResponseWriter, r *http.Request) {
 		if r.URL.Path == node.LoginPath {
 			node.login(w, r, callback)
